@@ -67,6 +67,15 @@ type baseInfo struct {
 var fnNames = []string{"Load", "LoadRaw", "LoadPlusRaw", "Fill"}
 var kindNames = []string{"none", "trunc", "flip", "extend", "subst", "readerr", "openerr", "multi", "writeerr", "commiterr", "encfail", "reread-differs", "walk", "cancel-midway"}
 
+// bigGarbage: 1.5 MiB that no codec accepts after an item.
+var bigGarbage = func() []byte {
+	g := make([]byte, 3<<19)
+	for j := range g {
+		g[j] = byte(j*131 + 7)
+	}
+	return g
+}()
+
 func extBytes(i int, valid []byte) []byte {
 	switch i % 6 {
 	case 0:
@@ -161,6 +170,7 @@ func (S06) RunTape(t *sim.Tape, st *sim.Stats, keepLog bool) *sim.Outcome {
 	pos := t.Choice(1<<16, "f.pos")
 	bit := t.Choice(8, "f.bit")
 	ext := t.Choice(6, "f.ext")
+	big := t.Choice(2, "f.bigext") == 1 && kind == 3
 	sticky := t.Bool("f.sticky")
 	withData := t.Bool("f.withdata")
 	pos2 := t.Choice(1<<16, "f.pos2")
@@ -192,6 +202,12 @@ func (S06) RunTape(t *sim.Tape, st *sim.Stats, keepLog bool) *sim.Outcome {
 		case 3:
 			f.Kind = "extend"
 			f.Ext = extBytes(ext, B2)
+			if big {
+				// far more trailing data than any buffer or bound an implementation might use while it
+				// drains the stream after a decode error; delivered in large pieces
+				f.Ext = bigGarbage
+				f.Chunk, f.Random = 1<<16, false
+			}
 		case 4:
 			f.Kind = "subst"
 			f.Subst = B2
@@ -854,7 +870,8 @@ func judgeLoad(o *sim.Outcome, st *sim.Stats, codec gen.Codec, fn, kind string, 
 	if rd.R.ErrAt == len(B) && rd.R.ErrAt >= 0 {
 		st.Inc("probe.error_at_eof_position")
 	}
-	if surfaced && res.err == nil && bytes.Equal(delivered, rd.R.D) {
+	if surfaced && res.err == nil && bytes.Equal(delivered, rd.R.D) && rd.R.ErrAt >= len(B) {
+		// (the error sits at or beyond the stored block's length: it took the place of the EOF)
 		// the error arrived only after the complete stream had been delivered (the
 		// decoder's end-of-input probe met it): the result is complete data, not
 		// partial data. Judged below like any success -- the delivered bytes must hash
@@ -1016,9 +1033,12 @@ func (sc S06) Unit(u *scen.Unit) {
 		}
 	}
 	for e := 0; e < 6; e++ {
-		ex(map[string]int{"f.kind": 3, "f.ext": e})
+		ex(map[string]int{"f.kind": 3, "f.ext": e, "f.bigext": 0})
 		u.St.Inc("enum.extend")
 	}
+	u.Exec(map[string]int{"f.kind": 3, "f.ext": 0, "f.bigext": 1, "f.chunk": 0, "f.caps": 0})
+	u.Exec(map[string]int{"f.kind": 3, "f.ext": 0, "f.bigext": 1, "f.chunk": 0, "f.caps": 3})
+	u.St.Add("enum.extend_large", 2)
 	ex(map[string]int{"f.kind": 4})
 	u.St.Inc("enum.subst")
 	// read errors: every recorded read boundary, the EOF position, seeded interior offsets
